@@ -64,6 +64,12 @@ pub enum Piece {
     Zip { a: Vec<f64>, b: Vec<f64>, rel: Rel, rhs: f64 },
     /// sum(i in op(s1, s2)) { x_i } rel rhs   op: 0 union, 1 intersection, 2 difference
     Sets { s1: Vec<u8>, s2: Vec<u8>, op: u8, rel: Rel, rhs: f64 },
+    /// aggregations over a range that depends on the outer index and starts empty:
+    /// `prod(j in 0..i) { a[j] } * x_i + sum(j in 0..i) { a[j] * x_j }` (empty product = 1, empty sum = 0)
+    Triangular { arr: Vec<f64>, inclusive: bool, rel: Rel, rhs: f64 },
+    /// computed subscripts: `x_{a[i]}`, `x_{len(a) - 1}`, `x_{i * 2}` (an array access, a call and a
+    /// product as the index of an indexed name)
+    Subscript { idx: Vec<u8>, rel: Rel },
 }
 
 #[derive(Clone, Debug, Serialize, Deserialize)]
@@ -178,6 +184,8 @@ impl DataProg {
                     Piece::Block { .. } => "scoped-block",
                     Piece::Zip { .. } => "zip",
                     Piece::Sets { .. } => "set-functions",
+                    Piece::Triangular { .. } => "empty-and-growing-aggregations",
+                    Piece::Subscript { .. } => "computed-subscripts",
                 }
                 .to_string(),
             );
@@ -406,6 +414,44 @@ impl Piece {
                 d.decls.push(format!("z{k} as Real(-9, 9)"));
                 u.decls.push(format!("z{k} as Real(-9, 9)"));
             }
+            Piece::Triangular { arr, inclusive, rel, rhs } => {
+                let n = arr.len();
+                d.wheres.push(format!("let a{k} = {}", arr_text(arr)));
+                // inclusive: j runs over 0..=i-1 written as `1..=i` shifted by one, so that the first
+                // range `1..=0` is empty as well
+                let (range, at) = if *inclusive { ("1..=i", format!("a{k}[j - 1]")) } else { ("0..i", format!("a{k}[j]")) };
+                let xj = if *inclusive { format!("x{k}_{{j - 1}}") } else { format!("x{k}_j") };
+                d.constraints.push(format!(
+                    "t{k}_i: prod(j in {range}) {{ {at} }} * x{k}_i + sum(j in {range}) {{ {at} * {xj} }} {} {} for i in 0..len(a{k})",
+                    rel.text(),
+                    num(*rhs)
+                ));
+                for i in 0..n {
+                    let p: f64 = arr[..i].iter().product();
+                    let terms: Vec<(f64, String)> = (0..i).map(|j| (arr[j], format!("x{k}_{j}"))).collect();
+                    u.constraints.push(format!("t{k}_{i}: {} * x{k}_{i} + {} {} {}", num(p), lin(&terms), rel.text(), num(*rhs)));
+                }
+                d.decls.push(format!("x{k}_i as Real(-4, 6) for i in 0..len(a{k})"));
+                for i in 0..n {
+                    u.decls.push(format!("x{k}_{i} as Real(-4, 6)"));
+                }
+            }
+            Piece::Subscript { idx, rel } => {
+                let n = idx.len();
+                let width = (idx.iter().map(|v| *v as usize).max().unwrap_or(0) + 1).max(n).max(2 * n.saturating_sub(1) + 1);
+                d.wheres.push(format!("let a{k} = [{}]", idx.iter().map(|v| v.to_string()).collect::<Vec<_>>().join(", ")));
+                d.constraints.push(format!(
+                    "s{k}_i: x{k}_{{a{k}[i]}} + x{k}_{{len(a{k}) - 1}} - x{k}_{{i * 2}} {} i + 1 for i in 0..len(a{k})",
+                    rel.text()
+                ));
+                for i in 0..n {
+                    u.constraints.push(format!("s{k}_{i}: x{k}_{} + x{k}_{} - x{k}_{} {} {}", idx[i], n - 1, i * 2, rel.text(), i + 1));
+                }
+                d.decls.push(format!("x{k}_i as Real(-4, 6) for i in 0..{width}"));
+                for i in 0..width {
+                    u.decls.push(format!("x{k}_{i} as Real(-4, 6)"));
+                }
+            }
             Piece::Sets { s1, s2, op, rel, rhs } => {
                 let f = |v: &Vec<u8>| format!("[{}]", v.iter().map(|x| x.to_string()).collect::<Vec<_>>().join(", "));
                 d.wheres.push(format!("let s{k} = {}", f(s1)));
@@ -489,6 +535,8 @@ pub fn piece() -> BoxedStrategy<Piece> {
             .prop_map(|(nodes, edges, form, rhs)| Piece::Graph { nodes, edges, form, rhs }),
         3 => (arr(false), 0u8..7, rel(), rhs()).prop_map(|(arr, kind, rel, rhs)| Piece::Block { arr, kind, rel, rhs }),
         1 => (arr(false), arr(false), rel(), rhs()).prop_map(|(a, b, rel, rhs)| Piece::Zip { a, b, rel, rhs }),
+        2 => (arr(false), any::<bool>(), rel(), rhs()).prop_map(|(arr, inclusive, rel, rhs)| Piece::Triangular { arr, inclusive, rel, rhs }),
+        2 => (proptest::collection::vec(0u8..6, 1..=4), rel()).prop_map(|(idx, rel)| Piece::Subscript { idx, rel }),
         2 => (proptest::collection::vec(0u8..10, 0..=4), proptest::collection::vec(0u8..10, 0..=4), 0u8..3, rel(), rhs()).prop_map(|(mut s1, mut s2, op, rel, rhs)| {
             s1.dedup();
             s2.dedup();
